@@ -405,6 +405,23 @@ fn pair_two_maps<P: TP>(w: &mut World<P, u64, SV>, nav_a: &[Nav], nav_b: &[Nav],
             }
             classify(env, sa, sb, root_kind(na, key_of(va.prefix())), root_kind(nb, key_of(vb.prefix())), &ea, &eb, leftover);
             check_setops_ro(&va, &vb, &ea, &eb, env)?;
+            if nav_b.is_empty() {
+                // the whole map as operand: `AsView for &PrefixMap` instead of an explicit view
+                env.ev("operand_is_map_reference");
+                let lim2 = 4 * (ea.len() + eb.len()) + 64;
+                let a1: Vec<Key> = va.union(&w.b.map).take(lim2).map(|i| key_of(i.prefix())).collect();
+                let a2: Vec<Key> = va.union(vb.clone()).take(lim2).map(|i| key_of(i.prefix())).collect();
+                ensure!(a1 == a2, "C05", "C05:union:map-reference-operand", "union with `&map` as operand yields {:?}, with `map.view()` {:?}", a1, a2);
+                let b1: Vec<Key> = va.intersection(&w.b.map).take(lim2).map(|i| key_of(i.0)).collect();
+                let b2: Vec<Key> = va.intersection(vb.clone()).take(lim2).map(|i| key_of(i.0)).collect();
+                ensure!(b1 == b2, "C06", "C06:intersection:map-reference-operand", "intersection with `&map` as operand yields {:?}, with `map.view()` {:?}", b1, b2);
+                let c1: Vec<Key> = va.difference(&w.b.map).take(lim2).map(|i| key_of(i.prefix)).collect();
+                let c2: Vec<Key> = va.difference(vb.clone()).take(lim2).map(|i| key_of(i.prefix)).collect();
+                ensure!(c1 == c2, "C07", "C07:difference:map-reference-operand", "difference with `&map` as operand yields {:?}, with `map.view()` {:?}", c1, c2);
+                let d1: Vec<Key> = va.covering_difference(&w.b.map).take(lim2).map(|i| key_of(i.0)).collect();
+                let d2: Vec<Key> = va.covering_difference(vb.clone()).take(lim2).map(|i| key_of(i.0)).collect();
+                ensure!(d1 == d2, "C07", "C07:covering_difference:map-reference-operand", "covering_difference with `&map` as operand yields {:?}, with `map.view()` {:?}", d1, d2);
+            }
             // mutable twins on the same navigation programs (C13: same prefixes / presence pattern)
             if env.focus.has(13) || env.focus.has(5) || env.focus.has(6) || env.focus.has(7) || env.focus.has(8) {
                 // mutable twins must report bit-identical prefixes (it is the same stored entry)
